@@ -171,6 +171,22 @@ PROPS['C08'] = {
     'bounds': '(a) none (all reachable objects); (b) the parser bounds of C01/C06. Idempotence and "canonical input is a fixpoint" follow from (a)+(b) and are not asserted separately',
     'solvers': {'quick': ['z3'], 'thorough': ['z3', 'z3new', 'cvc5']},
     'technique': 'SMT over the symbolically executed Vector()/lenVec/append code: structural comparison of append-only buffers, condition equivalences discharged by z3',
+    'per_harness': {'.': {'handler': 'groups_decide', 'ignore_kinds': ['growth']}},
+}
+
+
+PROPS['C17'] = {
+    'level': 'model_checking',
+    'pkgs': ALLV,
+    'text': 'PARTIAL (hybrid): along every path of Vector(), successful ParseVector (shaped inputs), Get/Set on a known metric, the scoring methods, Rating and Nomenclature, the number of executed allocation sites that the gc compiler reports as heap-allocated (go build -gcflags=-m, regenerated from the working tree on every run) is within the documented budget (Vector == 1, ParseVector <= 1, others 0); and Vector() never appends beyond the capacity lenVec computed (no reallocation), decided for every reachable object over the product of solver-enumerated bit-field groups. Counterexamples are replayed natively with testing.AllocsPerRun',
+    'bounds': 'Vector/Get/Set/scores: all reachable objects, strings of any length; ParseVector: the shaped inputs of C01 (TAIL_N). Trusted, outside the claim: the compiler\'s escape analysis report, allocations inside the runtime and sync.Pool (steady state assumed)',
+    'solvers': {'quick': ['z3'], 'thorough': ['z3', 'z3new']},
+    'timeout': {'quick': 900, 'thorough': 3600},
+    'per_harness': {'h3[01]': {'quick': {'handler': 'groups_decide', 'params': {'TAIL_N': 10}}, 'thorough': {'handler': 'groups_decide', 'params': {'TAIL_N': 16}}},
+                    'h20': {'quick': {'handler': 'groups_decide', 'params': {'TAIL_N': 6}}, 'thorough': {'handler': 'groups_decide', 'params': {'TAIL_N': 12}}},
+                    'h40': {'quick': {'handler': 'groups_decide', 'params': {'TAIL_N': 6}}, 'thorough': {'handler': 'groups_decide', 'params': {'TAIL_N': 12}}},
+                    'C17_Scores': {'skip_h40_score': True}},
+    'technique': 'SMT-based symbolic execution counting compiler-reported heap allocation sites per path; capacity arithmetic decided over solver-enumerated bit-field groups; native replay with testing.AllocsPerRun',
 }
 
 
